@@ -409,6 +409,7 @@ def worker(spec):
         async def c_worker(ev):
             clog.append(sys._getframe(0))
             try:
+                out["sleeping"] = True
                 await asyncio.sleep(1000)
             except asyncio.CancelledError:
                 c_sync(ev, depth)
@@ -421,8 +422,11 @@ def worker(spec):
         async def c_main():
             ev = asyncio.Event()
             t = asyncio.ensure_future(c_victim(ev))
-            for _ in range(5):
+            for _ in range(10000):
+                if out.get("sleeping"):
+                    break
                 await asyncio.sleep(0)
+            await asyncio.sleep(0)
             t.cancel()
             for _ in range(10000):
                 if out.get("arrived"):
